@@ -298,7 +298,7 @@ fn run_all(rep: &mut Report, tier: Tier) {
         rep.set("exhaustive", json!(true));
         rep.set("bound_note", json!("exhaustive within the stated bounds: every history up to the depth bound of each model graph (model_graphs) and every schedule up to the deviation bound of each scenario; deeper histories are not covered"));
     }
-    rep.set("rule", json!("model part: BFS over the reference model's state graph (operations clone / drop / send / embed sender / embed receiver / receive x3 variants / drop receiver / move to thread / move to forked process), canonical-state dedup; every transition is replayed from scratch on the real API as (shortest path to its source state + the operation) and every result compared; after the last operation every held receiver for which the model predicts Empty/Disconnected is probed. E1 part: one evaluation = one schedule of droppers racing a blocked/timed/polling receiver"));
+    rep.set("rule", json!("model part: BFS over the reference model's state graph (operations clone / drop / send / embed sender / embed receiver / receive x3 variants / drop receiver / move to thread / move to forked process), canonical-state dedup; every transition is replayed from scratch on the real API as (shortest path to its source state + the operation) and every result compared; after the last operation every held receiver for which the model predicts Empty/Disconnected is probed. E1 part: one evaluation = one schedule of droppers racing a blocked/timed/polling receiver; schedules are distinct by construction (the depth-first search never repeats a choice sequence) and a schedule counts as non-trivial when it contains at least one context switch; enumerated cases are distinct by construction; model paths are distinct operation sequences, each counted as non-trivial (at least one operation with its result compared)"));
     rep.assume("canonical form merges handles of the same channel in the same state (they are interchangeable) and ignores payload tags");
     rep.assume("channel families are acyclic (an endpoint only travels over a lower-numbered channel); the quantifier's 6 channels are not reached (3 quick / 4 thorough)");
 }
